@@ -100,6 +100,32 @@ Definition check_drain (c : drain_case) : bool :=
   list_eqb (pair_eqb Z.eqb ev_eqb) (map (fun e => (fst e, ev_of n (snd e))) evs) obs.
 Definition drain_mismatches := mismatches_with check_drain.
 
+(* ---- scripted runs: segments of (optional Shuffle, then a number of NextScenario calls) ----
+   Covers Shuffle after partial consumption, repeated Shuffle, Shuffle after EOF.  With
+   [rel = true] Remaining() is compared relative to its initial value (settings whose
+   |lp|^views exceeds 2^53 / int64, where the announced number itself is outside the model's
+   assumption but the count-down by one and the sequence are not). Scenarios are emitted as
+   exact base-n numbers (math/big on the Go side). *)
+Definition segment := (option (list nat * list nat) * nat)%type.
+
+Fixpoint run_segments (segs : list segment) (g : gen nat) : list (Z * result (option (list nat))) :=
+  match segs with
+  | [] => []
+  | (sh, m) :: r =>
+      let g1 := match sh with Some (perm, offs) => shuffle perm offs g | None => g end in
+      let '(evs, g2) := run_n m g1 in
+      evs ++ run_segments r g2
+  end.
+
+Definition script_case := (nat * nat * bool * list segment * list (Z * ev))%type.
+Definition check_script (c : script_case) : bool :=
+  let '(n, views, rel, segs, obs) := c in
+  let g0 := init (seq 0 n) views in
+  let base := if rel then g_rem g0 else 0%Z in
+  let evs := run_segments segs g0 in
+  list_eqb (pair_eqb Z.eqb ev_eqb) (map (fun e => ((fst e - base)%Z, ev_of n (snd e))) evs) obs.
+Definition script_mismatches := mismatches_with check_script.
+
 (* ---- the verdict ---- *)
 (* (replicas, each a list of node logs; variants: extra replicas appended; observed (safe, commits)
    for each variant) *)
